@@ -40,10 +40,10 @@ type c18Run struct {
 	Pos       string `json:"pos,omitempty"`    // position class of a defect
 	WriteSide bool   `json:"write_side,omitempty"`
 	MustFail  bool   `json:"must_fail,omitempty"`
-	MayFail   bool   `json:"may_fail,omitempty"` // relaxed: clean failure or identical output
+	MayFail   bool   `json:"may_fail,omitempty"`   // relaxed: clean failure or identical output
 	NoCompare bool   `json:"no_compare,omitempty"` // the fault changes the effective content (torn YAML): exit 0 output is not comparable
-	Ref       int    `json:"ref"`                // index of the fault-free run of the same content (-1 none)
-	Feature   string `json:"feature,omitempty"`  // observable content feature used in signatures
+	Ref       int    `json:"ref"`                  // index of the fault-free run of the same content (-1 none)
+	Feature   string `json:"feature,omitempty"`    // observable content feature used in signatures
 }
 
 type c18Meta struct {
@@ -92,7 +92,7 @@ func faultKindsFor(ev simrt.Ev, writeHandles map[string]bool) (kinds []simrt.Fau
 }
 
 func (p c18) Gen(t *rapid.T, env *Env) (*Case, []*Out) {
-	scenario := rapid.SampledFrom([]string{"env", "env", "env", "content", "defect", "defect", "defect", "flags", "recursive", "stdin"}).Draw(t, "scenario")
+	scenario := rapid.SampledFrom([]string{"env", "env", "env", "content", "defect", "defect", "defect", "flags", "recursive", "stdin", "odd", "odd"}).Draw(t, "scenario")
 	var w *World
 	var args []string
 	maxFiles := 3
@@ -138,10 +138,25 @@ func (p c18) Gen(t *rapid.T, env *Env) (*Case, []*Out) {
 
 	switch scenario {
 	case "env":
-		spec0 := w.Spec("", nil, args)
+		// reads are delivered in drawn chunk sizes, so that read faults also land in
+		// the middle of a stream (EIO after k bytes, body cut after k bytes)
+		chunks := rapid.SampledFrom([][]int{nil, nil, {64}, {200}, {512}, {33, 7}}).Draw(t, "envchunks")
+		baseSpec := w.Spec
+		wspec := func(prefix string, ko *KeyOrder, a []string) simrt.Spec {
+			sp := baseSpec(prefix, ko, a)
+			sp.Chunks = chunks
+			return sp
+		}
+		spec0 := wspec("", nil, args)
 		o0 := add("reference", spec0, c18Run{Kind: "reference", Ref: -1, Feature: feature})
 		if !o0.HasRes {
 			break
+		}
+		{
+			// -v only adds progress lines on stderr: exit class, stdout and files must not change
+			wv := *w
+			wv.Opts.Verbose = true
+			add("verbose", func() simrt.Spec { sp := wv.Spec("", nil, args); sp.Chunks = chunks; return sp }(), c18Run{Kind: "verbose", Ref: 0, Feature: feature})
 		}
 		writeHandles := map[string]bool{}
 		for _, ev := range o0.Res.Trace {
@@ -152,7 +167,7 @@ func (p c18) Gen(t *rapid.T, env *Env) (*Case, []*Out) {
 		for _, ev := range o0.Res.Trace {
 			kinds, target, ws := faultKindsFor(ev, writeHandles)
 			for _, f := range kinds {
-				sp := w.Spec("", nil, args)
+				sp := wspec("", nil, args)
 				sp.Faults = []simrt.Fault{f}
 				mr := c18Run{Kind: "fault", What: f.Kind, Op: ev.Op, Target: target, WriteSide: ws, Ref: 0, Feature: feature}
 				if f.Kind == "eof" && (strings.HasSuffix(ev.Path, ".yaml") || strings.HasSuffix(ev.Path, ".yml")) {
@@ -172,7 +187,7 @@ func (p c18) Gen(t *rapid.T, env *Env) (*Case, []*Out) {
 			nseq := rapid.IntRange(0, 6).Draw(t, "nseq")
 			for i := 0; i < nseq; i++ {
 				nf := rapid.IntRange(2, 3).Draw(t, "nfaults")
-				sp := w.Spec("", nil, args)
+				sp := wspec("", nil, args)
 				ws := false
 				var what []string
 				for j := 0; j < nf; j++ {
@@ -195,6 +210,8 @@ func (p c18) Gen(t *rapid.T, env *Env) (*Case, []*Out) {
 	case "recursive":
 		spec0 := w.Spec("", nil, args)
 		add("valid-world", spec0, c18Run{Kind: "valid", Ref: -1, Feature: feature})
+	case "odd":
+		genOddities(t, w, args, add)
 	case "stdin":
 		// a schema on standard input ("-"), whole and torn
 		f := w.Files[0]
@@ -360,6 +377,9 @@ func cloneObj(o Obj) Obj {
 }
 
 func defsKey(doc Obj) string {
+	if _, ok := doc.Get("$defs"); ok {
+		return "$defs" // the real block when a document has both keywords
+	}
 	if _, ok := doc.Get("definitions"); ok {
 		return "definitions"
 	}
@@ -789,6 +809,10 @@ func (p c18) Eval(c *Case, outs []*Out) []Discrepancy {
 			ctx = "defect:" + mr.What + "@" + mr.Pos
 		case "flag":
 			ctx = "flag:" + mr.What
+		case "verbose":
+			ctx = "verbose"
+		case "odd":
+			ctx = "odd-but-valid:" + mr.What
 		case "valid", "reference":
 			ctx = "valid-input"
 			if mr.Feature != "" {
@@ -909,6 +933,9 @@ func (p c18) Eval(c *Case, outs []*Out) []Discrepancy {
 					}
 				}
 			}
+			if mr.Kind == "verbose" && (exit == 0) != (ref.Res.Exit == 0) {
+				add("S0", "verbose-changes-exit", fmt.Sprintf("exit %d with -v, %d without", exit, ref.Res.Exit))
+			}
 			if exit == 0 && ref.Res.Exit != 0 && mr.Kind == "fault" && !mr.NoCompare {
 				add("S0", "fault-turned-failure-into-success", fmt.Sprintf("fault-free run exits %d, faulted run exits 0", ref.Res.Exit))
 			}
@@ -966,7 +993,7 @@ func (p c18) Nontrivial(c *Case, outs []*Out) bool {
 			continue
 		}
 		switch meta.Runs[i].Kind {
-		case "content", "defect", "flag":
+		case "content", "defect", "flag", "odd":
 			return true
 		case "fault":
 			for _, f := range o.Res.Fired {
@@ -981,4 +1008,150 @@ func (p c18) Nontrivial(c *Case, outs []*Out) bool {
 		}
 	}
 	return false
+}
+
+// ---- unusual but valid content -------------------------------------------------------
+
+// oddities are schema fragments that are legal JSON Schema (or at least legal
+// JSON that real schemas contain) but off the beaten track. Nothing is demanded
+// of them except the T, S1 and A clauses: the tool may accept or reject them,
+// never crash, hang, or fail half-way.
+var oddityTexts = []struct{ name, json string }{
+	{"empty-type-list", "{\"type\": []}"},
+	{"type-empty-string", "{\"type\": \"\"}"},
+	{"three-types", "{\"type\": [\"string\", \"integer\", \"null\"]}"},
+	{"null-and-null", "{\"type\": [\"null\", \"null\"]}"},
+	{"items-true", "{\"type\": \"array\", \"items\": true}"},
+	{"items-false", "{\"type\": \"array\", \"items\": false}"},
+	{"array-without-items", "{\"type\": \"array\"}"},
+	{"array-min-gt-max", "{\"type\": \"array\", \"items\": {\"type\": \"string\"}, \"minItems\": 5, \"maxItems\": 2}"},
+	{"required-missing-property", "{\"type\": \"object\", \"properties\": {\"a\": {\"type\": \"string\"}}, \"required\": [\"a\", \"ghost\"]}"},
+	{"required-on-empty-object", "{\"type\": \"object\", \"required\": [\"ghost\"]}"},
+	{"required-duplicate", "{\"type\": \"object\", \"properties\": {\"a\": {\"type\": \"string\"}}, \"required\": [\"a\", \"a\"]}"},
+	{"enum-null-only", "{\"enum\": [null]}"},
+	{"enum-null-typed", "{\"type\": \"null\", \"enum\": [null]}"},
+	{"enum-bool", "{\"type\": \"boolean\", \"enum\": [true]}"},
+	{"enum-number-fraction", "{\"type\": \"number\", \"enum\": [1.5, 2.25]}"},
+	{"enum-integer-with-fraction", "{\"type\": \"integer\", \"enum\": [1.5]}"},
+	{"enum-duplicate-values", "{\"type\": \"string\", \"enum\": [\"a\", \"a\"]}"},
+	{"enum-odd-strings", "{\"type\": \"string\", \"enum\": [\"\", \" \", \"a b\", \"1\", \"-\", \"ü\", \"a\\\"b\"]}"},
+	{"addl-multi-type", "{\"type\": \"object\", \"additionalProperties\": {\"type\": [\"string\", \"integer\"]}}"},
+	{"addl-array", "{\"type\": \"object\", \"properties\": {\"a\": {\"type\": \"string\"}}, \"additionalProperties\": {\"type\": \"array\", \"items\": {\"type\": \"string\"}}}"},
+	{"addl-nested-object", "{\"type\": \"object\", \"additionalProperties\": {\"type\": \"object\", \"additionalProperties\": {\"type\": \"integer\"}}}"},
+	{"deep-arrays", "{\"type\": \"array\", \"items\": {\"type\": \"array\", \"items\": {\"type\": \"array\", \"items\": {\"type\": \"array\", \"items\": {\"type\": \"array\", \"items\": {\"type\": \"integer\", \"minimum\": 1}}}}}}"},
+	{"default-wrong-type", "{\"type\": \"integer\", \"default\": \"seven\"}"},
+	{"default-object", "{\"type\": \"object\", \"properties\": {\"a\": {\"type\": \"string\"}}, \"default\": {\"a\": \"x\"}}"},
+	{"default-array", "{\"type\": \"array\", \"items\": {\"type\": \"string\"}, \"default\": [\"a\", \"b\"]}"},
+	{"default-null", "{\"type\": [\"string\", \"null\"], \"default\": null}"},
+	{"default-on-enum-not-member", "{\"type\": \"string\", \"enum\": [\"a\", \"b\"], \"default\": \"zzz\"}"},
+	{"bounds-crossed", "{\"type\": \"integer\", \"minimum\": 10, \"maximum\": 1}"},
+	{"bounds-huge", "{\"type\": \"integer\", \"minimum\": -1e+30, \"maximum\": 1e+30}"},
+	{"bounds-fraction-on-integer", "{\"type\": \"integer\", \"minimum\": 0.5, \"maximum\": 2.5, \"multipleOf\": 0.5}"},
+	{"multipleof-zero", "{\"type\": \"number\", \"multipleOf\": 0}"},
+	{"multipleof-negative", "{\"type\": \"integer\", \"multipleOf\": -3}"},
+	{"exclusive-bool-draft4", "{\"type\": \"number\", \"minimum\": 1, \"exclusiveMinimum\": true, \"maximum\": 9, \"exclusiveMaximum\": false}"},
+	{"length-negative", "{\"type\": \"string\", \"minLength\": -1}"},
+	{"length-crossed", "{\"type\": \"string\", \"minLength\": 9, \"maxLength\": 2}"},
+	{"pattern-invalid-regexp", "{\"type\": \"string\", \"pattern\": \"([a-z\"}"},
+	{"pattern-backquote", "{\"type\": \"string\", \"pattern\": \"^`+$\"}"},
+	{"format-unknown", "{\"type\": \"string\", \"format\": \"no-such-format\"}"},
+	{"format-on-integer", "{\"type\": \"integer\", \"format\": \"date-time\"}"},
+	{"very-long-name", "{\"type\": \"object\", \"properties\": {\"very_long_property_name_very_long_property_name_very_long_property_name_very_long_property_name_very_long_property_name_very_long_property_name_very_long_property_name_very_long_property_name_very_long_property_name_very_long_property_name_very_long_property_name_very_long_property_name_very_long_property_name_very_long_property_name_very_long_property_name_very_long_property_name_very_long_property_name_very_long_property_name_very_long_property_name_very_long_property_name_very_long_property_name_very_long_property_name_very_long_property_name_very_long_property_name_very_long_property_name_very_long_property_name_very_long_property_name_very_long_property_name_very_long_property_name_very_long_property_name_very_long_property_name_very_long_property_name_very_long_property_name_very_long_property_name_very_long_property_name_very_long_property_name_very_long_property_name_very_long_property_name_very_long_property_name_very_long_property_name_\": {\"type\": \"string\"}}}"},
+	{"odd-property-names", "{\"type\": \"object\", \"properties\": {\"\": {\"type\": \"string\"}, \"*\": {\"type\": \"string\"}, \"1st\": {\"type\": \"string\"}, \"a.b\": {\"type\": \"string\"}, \"type\": {\"type\": \"string\"}, \"func\": {\"type\": \"string\"}, \"日本\": {\"type\": \"string\"}, \"_\": {\"type\": \"string\"}}}"},
+	{"go-keyword-names", "{\"type\": \"object\", \"properties\": {\"map\": {\"type\": \"object\", \"properties\": {\"chan\": {\"type\": \"integer\"}}}, \"interface\": {\"type\": \"string\"}}}"},
+	{"not-keyword", "{\"not\": {\"type\": \"string\"}}"},
+	{"oneof", "{\"oneOf\": [{\"type\": \"string\"}, {\"type\": \"integer\"}]}"},
+	{"anyof-empty", "{\"anyOf\": []}"},
+	{"allof-empty", "{\"allOf\": []}"},
+	{"allof-single-primitive", "{\"allOf\": [{\"type\": \"string\"}]}"},
+	{"anyof-primitives-only", "{\"anyOf\": [{\"type\": \"string\"}, {\"type\": \"integer\"}]}"},
+	{"allof-object-and-array", "{\"allOf\": [{\"type\": \"object\", \"properties\": {\"a\": {\"type\": \"string\"}}}, {\"type\": \"array\", \"items\": {\"type\": \"string\"}}]}"},
+	{"anyof-with-enum-branch", "{\"anyOf\": [{\"enum\": [\"a\", \"b\"]}, {\"type\": \"object\", \"properties\": {\"q\": {\"type\": \"string\"}}}]}"},
+	{"nested-defs", "{\"type\": \"object\", \"properties\": {\"a\": {\"type\": \"string\"}}, \"$defs\": {\"Inner\": {\"type\": \"integer\"}}}"},
+	{"gojsonschema-type", "{\"type\": \"string\", \"goJSONSchema\": {\"type\": \"time.Duration\", \"imports\": [\"time\"]}}"},
+	{"gojsonschema-identifier", "{\"type\": \"string\", \"goJSONSchema\": {\"identifier\": \"Renamed\"}}"},
+	{"gojsonschema-empty", "{\"type\": \"string\", \"goJSONSchema\": {}}"},
+	{"title-odd", "{\"type\": \"object\", \"title\": \"  /* weird */ title\\n\", \"properties\": {\"a\": {\"type\": \"string\"}}}"},
+	{"description-comment-close", "{\"type\": \"string\", \"description\": \"ends a comment */ and `backquotes` and \\\\ backslash\\r\\nCRLF\"}"},
+	{"const-keyword", "{\"const\": \"fixed\"}"},
+	{"boolean-false-schema", "false"},
+	{"dependencies-legacy", "{\"type\": \"object\", \"properties\": {\"a\": {\"type\": \"string\"}}, \"dependencies\": {\"a\": {\"type\": \"object\"}}}"},
+	{"pattern-properties", "{\"type\": \"object\", \"patternProperties\": {\"^x-\": {\"type\": \"string\"}}}"},
+	{"ref-with-siblings", "{\"$ref\": \"#/$defs/OddTarget\", \"description\": \"sibling\", \"type\": \"object\"}"},
+	{"ref-to-primitive-def", "{\"$ref\": \"#/$defs/OddPrim\"}"},
+	{"ref-pointer-escapes", "{\"$ref\": \"#/$defs/Odd~1Name\"}"},
+	{"ref-to-definitions-root", "{\"$ref\": \"#/$defs\"}"},
+	{"ref-empty-fragment-path", "{\"$ref\": \"#/\"}"},
+	{"ref-url-encoded", "{\"$ref\": \"#/$defs/Odd%20Target\"}"},
+	{"ref-bad-url", "{\"$ref\": \"http://[::1\"}"},
+	{"ref-unsupported-scheme", "{\"$ref\": \"ftp://example.com/x.json\"}"},
+}
+
+var oddities = func() []struct {
+	name string
+	v    any
+} {
+	var out []struct {
+		name string
+		v    any
+	}
+	for _, o := range oddityTexts {
+		v, err := ParseOrdered([]byte(o.json))
+		if err != nil {
+			panic(o.name + ": " + err.Error())
+		}
+		out = append(out, struct {
+			name string
+			v    any
+		}{o.name, v})
+	}
+	return out
+}()
+
+func genOddities(t *rapid.T, w *World, args []string, add addFn) {
+	afs := argFiles(w, args)
+	if len(afs) == 0 {
+		return
+	}
+	f := afs[rapid.IntRange(0, len(afs)-1).Draw(t, "ofile")]
+	n := rapid.IntRange(1, 3).Draw(t, "nodd")
+	doc := cloneObj(f.Doc)
+	// targets for the ref oddities
+	doc = withDef(doc, "OddTarget", Obj{{"type", "object"}, {"properties", Obj{{"x", Obj{{"type", "string"}}}}}})
+	doc = withDef(doc, "OddPrim", Obj{{"type", "string"}, {"minLength", 2}})
+	var names []string
+	for i := 0; i < n; i++ {
+		o := oddities[rapid.IntRange(0, len(oddities)-1).Draw(t, "odd")]
+		names = append(names, o.name)
+		pos := rapid.SampledFrom([]string{"prop", "prop", "def", "item", "nested", "required-prop"}).Draw(t, "oddpos")
+		pname := fmt.Sprintf("odd%d", i)
+		switch pos {
+		case "prop":
+			doc = addProp(doc, pname, o.v)
+		case "def":
+			doc = withDef(doc, fmt.Sprintf("OddDef%d", i), o.v)
+		case "item":
+			doc = addProp(doc, pname, Obj{{"type", "array"}, {"items", o.v}})
+		case "nested":
+			doc = addProp(doc, pname, Obj{{"type", "object"}, {"properties", Obj{{"inner", o.v}}}, {"required", []any{"inner"}}})
+		case "required-prop":
+			doc = addProp(doc, pname, o.v)
+			if ty, _ := doc.Get("type"); ty == "object" {
+				req, _ := doc.Get("required")
+				ra, _ := req.([]any)
+				doc = doc.Set("required", append(append([]any{}, ra...), pname))
+			}
+		}
+	}
+	sort.Strings(names)
+	nf := *f
+	nf.Doc = doc
+	abs := filepath.Join(w.Root, f.Rel())
+	spec := w.Spec("", nil, args)
+	for i := range spec.FS {
+		if spec.FS[i].Path == abs {
+			spec.FS[i].Data = subst(nf.Bytes(nil), "", w.Root)
+		}
+	}
+	add("odd "+strings.Join(names, ","), spec, c18Run{Kind: "odd", What: strings.Join(names, "+"), Ref: -1})
 }
